@@ -178,7 +178,12 @@ func yamlList(l []string) string {
 	return "[" + strings.Join(q, ", ") + "]"
 }
 
-func runCase(c Case, outDir string, res *lib.Result) []string {
+func runCase(c Case, outDir string, res *lib.Result) (ret []string) {
+	defer res.Recover(c)
+	return runCaseRaw(c, outDir, res)
+}
+
+func runCaseRaw(c Case, outDir string, res *lib.Result) []string {
 	abs, _ := filepath.Abs(outDir)
 	bin := filepath.Join(filepath.Dir(abs), "bin", "regsync")
 	work, _ := os.MkdirTemp(os.TempDir(), "c18-")
